@@ -89,7 +89,7 @@ theorem blockStageX_deepF {x : Exts} {cfg : Cfg} {src : Str} (hf : x.fencedCode 
     split at h
     · cases h
     · next root0 log0 hpd =>
-      letI : NoCtlF.HtmlBound := ⟨stash'.length, false⟩
+      letI : NoCtlF.HtmlBound := ⟨stash'.length, false, false⟩
       obtain ⟨hroot0, hlog0⟩ := NoCtlXF.XT.block_stage_own_q x.tables x.blockCfg htab hown hpd
       have hr0 : root0.Forall QD := Node.Forall.mono (fun _ hn => qd_of_xinv hn) root0 hroot0
       cases hfn : x.footnotes with
